@@ -23,7 +23,9 @@ Definition init : st := {| gmode := true; rmode := false; objs := [] |}.
 Inductive ev :=
 | New   (k : kind)                (* o = no_grad() / retain_grads()                       *)
 | Enter (o : nat)                 (* o.__enter__()                                         *)
-| Exit  (o : nat) (exc : bool).   (* o.__exit__(...) on normal exit (false) or exception   *)
+| Exit  (o : nat) (exc : bool)    (* o.__exit__(...) on normal exit (false) or exception   *)
+| Call.                           (* any other library call made while the contexts are in this state: creating a
+                                     tensor, applying an operation, backward() - completed or refused *)
 
 Definition flag (k : kind) (s : st) : bool :=
   match k with KNoGrad => gmode s | KRetain => rmode s end.
@@ -71,6 +73,7 @@ Definition step (s : st) (e : ev) : option st :=
               Some (set_flag (okind ob) b s1)
           end
       end
+  | Call => Some s
   end.
 
 Fixpoint run (s : st) (t : list ev) : option st :=
